@@ -1,2 +1,60 @@
 """Structural matchers for entries of known_findings.json: each decides whether a failure report
 is an instance of that listed finding (so that any other violation is still reported)."""
+import engine
+
+
+def _desc(rep):
+    c = rep.get("case") or {}
+    return c.get("desc")
+
+
+def _outcome(rep):
+    impl = rep.get("impl") or {}
+    out = impl.get("out") if isinstance(impl, dict) else impl
+    if out and str(out[0]) == "err":
+        return str(out[1][0])
+    return None
+
+
+def acl_undeclared_cap(rep):
+    """a memoryAccess entry names a capability no unit declares -> bare AssertionError (finding O2)"""
+    d = _desc(rep)
+    if not d or rep.get("component") != "loader" or _outcome(rep) != "AssertionError":
+        return False
+    declared = {c.lower() for u in d["units"] for c in u.get("capabilities", [])}
+    return any(c.lower() not in declared for u in d["units"] for c in u.get("memoryAccess", []))
+
+
+def empty_unit_name(rep):
+    """a unit named '' that is the first surviving input port -> EmptyProcError (finding O3)"""
+    d = _desc(rep)
+    if not d or rep.get("component") != "loader" or _outcome(rep) != "EmptyProcError":
+        return False
+    return any(u.get("name") == "" for u in d["units"])
+
+
+PINNED = {
+    "acl_undeclared_cap": {"desc": {"units": [{"name": "core", "width": 1, "capabilities": ["ALU"], "readLock": True,
+                                               "writeLock": True, "memoryAccess": ["MEM"]}], "dataPath": []},
+                           "kind": "pinned"},
+    "empty_unit_name": {"desc": {"units": [{"name": "", "width": 1, "capabilities": ["ALU"], "readLock": True,
+                                            "writeLock": True}], "dataPath": []}, "kind": "pinned"},
+}
+
+
+def _demo(name):
+    reps = engine.run_cases("loader", 0, 1, {}, explicit=[PINNED[name]])
+    if not reps or "error" in reps[0]:
+        return False
+    r = reps[0]
+    bad = "C11" in r["checks"] and not r["checks"]["C11"][0]
+    rep = {"component": "loader", "case": r["case"], "impl": r.get("impl")}
+    return bad and globals()[name](rep)
+
+
+def acl_undeclared_cap_demo():
+    return _demo("acl_undeclared_cap")
+
+
+def empty_unit_name_demo():
+    return _demo("empty_unit_name")
